@@ -952,12 +952,29 @@ class Verifier(Engine):
             recv = self.ev.ev(st, t.value)
             if isinstance(t.slice, ast.Slice):
                 # lst[a:] = other   -- keep the first a elements, then other's
-                if t.slice.upper is not None or t.slice.step is not None or not isinstance(recv, VList) or not isinstance(v, VList):
+                if t.slice.step is not None or not isinstance(recv, VList) or not isinstance(v, VList):
                     raise OutOfSubset('slice assignment')
                 lo = self.ev.ev(st, t.slice.lower) if t.slice.lower is not None else VInt(0)
                 n = st.llen(recv.t)
                 a = self.clamp(self.as_int(lo), n)
                 m = st.llen(v.t)
+                if t.slice.upper is not None:
+                    # lst[a:b] = other   -- the first a elements, then other's, then the elements from b on
+                    hi_ = self.clamp(self.as_int(self.ev.ev(st, t.slice.upper)), n)
+                    b = z3.If(hi_ < a, a, hi_)
+                    if v.ek != recv.ek and v.ek != 'any':
+                        raise OutOfSubset('slice assignment between lists of different element kinds')
+                    old = st.larr(recv.t, recv.ek)
+                    srcl = st.larr(v.t, recv.ek)
+                    k = z3.Int(fresh_name('k'))
+                    new = z3.Const(fresh_name('sla'), old.sort())
+                    st.pc.append(smt.forall([k], z3.Select(new, k) == z3.If(k < a, z3.Select(old, k),
+                                                                             z3.If(k < a + m, z3.Select(srcl, k - a),
+                                                                                   z3.Select(old, k - m + b))),
+                                            patterns=[z3.Select(new, k)]))
+                    st.lset_all(recv.t, new, recv.ek)
+                    st.wr('$len', recv.t, a + m + (n - b))
+                    return
                 if v.ek != recv.ek:
                     ms = z3.simplify(m)
                     if not (z3.is_int_value(ms) and ms.as_long() == 0):
